@@ -222,6 +222,10 @@ func buildVersion(v, perm int) *migProfile {
 		errors.RegisterTypeMigration(gen.MigPkgPath, "*gen.XFooP", gen.XBarV{})
 		errors.RegisterTypeMigration(gen.MigPkgPath, "gen.XFooV", &gen.XBarP{})
 		errors.RegisterTypeMigration(gen.MigPkgPath, "*gen.FooMulti", &gen.BarMulti{})
+		errors.RegisterTypeMigration(gen.MigPkgPath, "*gen.GFoo[int]", &gen.GBar[int]{})
+		errors.RegisterLeafDecoder(errors.GetTypeKey(&gen.GBar[int]{}), func(_ context.Context, msg string, _ []string, _ proto.Message) error {
+			return &gen.GBar[int]{Msg: msg}
+		})
 		errors.RegisterTypeMigration(gen.MigPkgPath, "*gen.XNilFoo", (*gen.XNilBar)(nil))
 		errors.RegisterLeafDecoder(errors.GetTypeKey((*gen.XNilBar)(nil)), func(_ context.Context, msg string, _ []string, _ proto.Message) error {
 			if msg == (*gen.XNilBar)(nil).Error() {
@@ -240,6 +244,7 @@ func buildVersion(v, perm int) *migProfile {
 		}{
 			{"pointer-to-value", gen.MigPkgPath + "/*gen.XFooP", func() error { return gen.XBarV{Msg: "TKUxvQ"} }},
 			{"value-to-pointer", gen.MigPkgPath + "/gen.XFooV", func() error { return &gen.XBarP{Msg: "TKUxpQ"} }},
+			{"generic-instantiation", gen.MigPkgPath + "/*gen.GFoo[int]", func() error { return &gen.GBar[int]{Msg: "TKUgenQ"} }},
 			{"typed-nil-pointer", gen.MigPkgPath + "/*gen.XNilFoo", func() error { return (*gen.XNilBar)(nil) }},
 			{"nil-safe-type", gen.MigPkgPath + "/*gen.XNilFoo", func() error { return &gen.XNilBar{Msg: "TKUxnQ"} }},
 			{"multi-cause", gen.MigPkgPath + "/*gen.FooMulti", func() error {
